@@ -163,4 +163,150 @@ theorem lookup_size_le (env : Env) (id : Nat) (d : Def) (h : env.lookup id = som
       have := ih h
       omega
 
+/-! ## How `seen` evolves: a call never changes or removes a finished struct type, and leaves exactly the entries
+"under construction" (with their roots) it found -/
+
+def Evo (s s' : Seen) : Prop :=
+  (∀ k fs, s.find k = some (.done fs) → s'.find k = some (.done fs)) ∧
+  (∀ k r, s'.find k = some (.building r) ↔ s.find k = some (.building r))
+
+theorem Evo.refl (s : Seen) : Evo s s := ⟨fun _ _ h => h, fun _ _ => Iff.rfl⟩
+
+theorem Evo.trans {a b c : Seen} (h1 : Evo a b) (h2 : Evo b c) : Evo a c :=
+  ⟨fun k fs h => h2.1 k fs (h1.1 k fs h), fun k r => (h2.2 k r).trans (h1.2 k r)⟩
+
+theorem Evo.mono {s s' : Seen} (h : Evo s s') : Mono s s' := by
+  intro k hk
+  cases hf : s.find k with
+  | none => simp [hf] at hk
+  | some e =>
+    cases e with
+    | building r => rw [(h.2 k r).mpr hf]; rfl
+    | done fs => rw [h.1 k fs hf]; rfl
+
+/-- a named composite type: registered on the way in, deleted on the way out -/
+theorem evo_named (s s1 : Seen) (k r0 : Key) (habs : s.find k = none) (h : Evo (s.set k (.building r0)) s1) :
+    Evo s (s1.erase k) := by
+  constructor
+  · intro k' fs hk'
+    have hne : k' ≠ k := by intro e; subst e; rw [habs] at hk'; cases hk'
+    rw [find_erase]; simp only [hne, if_false]
+    apply h.1
+    rw [find_set_ne _ _ _ _ hne]; exact hk'
+  · intro k' r
+    rw [find_erase]
+    by_cases hk : k' = k
+    · subst hk; simp [habs]
+    · simp only [hk, if_false]
+      rw [h.2 k' r, find_set_ne _ _ _ _ hk]
+
+/-- a struct type: registered, then finished -/
+theorem evo_struct (s s2 : Seen) (k r0 : Key) (fs : CL) (habs : s.find k = none) (h : Evo (s.set k (.building r0)) s2) :
+    Evo s (s2.set k (.done fs)) := by
+  constructor
+  · intro k' fs' hk'
+    have hne : k' ≠ k := by intro e; subst e; rw [habs] at hk'; cases hk'
+    rw [find_set_ne _ _ _ _ hne]
+    apply h.1
+    rw [find_set_ne _ _ _ _ hne]; exact hk'
+  · intro k' r
+    by_cases hk : k' = k
+    · subst hk; simp [find_set_self, habs]
+    · rw [find_set_ne _ _ _ _ hk, h.2 k' r, find_set_ne _ _ _ _ hk]
+
+/-- the second listing: the marker is set to the root and restored -/
+theorem evo_relist (s s2 : Seen) (k r R : Key) (hk : s.find k = some (.building r))
+    (h : Evo (s.set k (.building R)) s2) : Evo s (s2.set k (.building r)) := by
+  constructor
+  · intro k' fs hk'
+    have hne : k' ≠ k := by intro e; subst e; rw [hk] at hk'; cases hk'
+    rw [find_set_ne _ _ _ _ hne]
+    apply h.1
+    rw [find_set_ne _ _ _ _ hne]; exact hk'
+  · intro k' r'
+    by_cases hke : k' = k
+    · subst hke
+      rw [find_set_self, hk]
+    · rw [find_set_ne _ _ _ _ hke, h.2 k' r', find_set_ne _ _ _ _ hke]
+
+/-! ## The potential -/
+
+theorem absent_evo (U : List Key) (s s' : Seen) (h : Evo s s') : absent U s' ≤ absent U s := by
+  unfold absent
+  apply filter_length_le
+  intro k _ hk
+  cases hs : s.find k with
+  | none => rfl
+  | some e =>
+    have := h.mono k (by simp [hs])
+    cases hs' : s'.find k with
+    | none => simp [hs'] at this
+    | some e' => simp [hs'] at hk
+
+theorem absent_set_lt (U : List Key) (s : Seen) (k : Key) (e : Entry) (hk : k ∈ U) (habs : s.find k = none) :
+    absent U (s.set k e) < absent U s := by
+  unfold absent
+  apply filter_length_lt _ _ _ _ k hk
+  · simp [habs]
+  · simp [find_set_self]
+  · intro x _ hx
+    have := mono_set s k e x
+    cases hs : s.find x with
+    | none => rfl
+    | some e' =>
+      have h2 := this (by simp [hs])
+      cases hs' : (s.set k e).find x with
+      | none => simp [hs'] at h2
+      | some _ => simp [hs'] at hx
+
+theorem absent_set_le (U : List Key) (s : Seen) (k : Key) (e : Entry) : absent U (s.set k e) ≤ absent U s := by
+  unfold absent
+  apply filter_length_le
+  intro x _ hx
+  have := mono_set s k e x
+  cases hs : s.find x with
+  | none => rfl
+  | some e' =>
+    have h2 := this (by simp [hs])
+    cases hs' : (s.set k e).find x with
+    | none => simp [hs'] at h2
+    | some _ => simp [hs'] at hx
+
+theorem absent_le (U : List Key) (s : Seen) : absent U s ≤ U.length := List.length_filter_le _ _
+
+theorem foreign_le (U : List Key) (s : Seen) (R : Key) : foreign U s R ≤ U.length := List.length_filter_le _ _
+
+theorem isForeign_evo (s s' : Seen) (R k : Key) (h : Evo s s') : isForeign s' R k = isForeign s R k := by
+  unfold isForeign
+  cases hs : s.find k with
+  | none =>
+    cases hs' : s'.find k with
+    | none => rfl
+    | some e =>
+      cases e with
+      | building r => have := (h.2 k r).mp hs'; rw [hs] at this; cases this
+      | done fs => rfl
+  | some e =>
+    cases e with
+    | building r => rw [(h.2 k r).mpr hs]
+    | done fs => rw [h.1 k fs hs]
+
+theorem foreign_evo (U : List Key) (s s' : Seen) (R : Key) (h : Evo s s') : foreign U s' R = foreign U s R := by
+  unfold foreign
+  have : isForeign s' R = isForeign s R := funext fun k => isForeign_evo s s' R k h
+  rw [this]
+
+/-- the second listing marks one more struct type under construction with the current root -/
+theorem foreign_mark_lt (U : List Key) (s : Seen) (k r R : Key) (hk : k ∈ U) (hf : s.find k = some (.building r))
+    (hne : (r == R) = false) : foreign U (s.set k (.building R)) R < foreign U s R := by
+  unfold foreign
+  apply filter_length_lt _ _ _ _ k hk
+  · have : r ≠ R := by simpa using hne
+    simp [isForeign, hf, this]
+  · simp [isForeign, find_set_self]
+  · intro x _ hx
+    by_cases hxk : x = k
+    · subst hxk; simp [isForeign, find_set_self] at hx
+    · simpa [isForeign, find_set_ne _ _ _ _ hxk] using hx
+
 end Enc.Lemmas.JsonCodecChoiceSeen
